@@ -1061,7 +1061,11 @@ def run_case(case: dict[str, Any], subsets: list[list[str]], scratch: str, known
                         branchy = branchy or obs_list[-1]["branchy"]
                 plain.append(obs_list)
             else:
+                # shift the heap before the second plain run: behaviour that depends on object addresses (id()-based
+                # hashes, default reprs) then shows up as "unstable" instead of being blamed on the instrumentation
+                ballast = [object() for _ in range(1009)]
                 plain.append([observe(prog, ns, call) for call in calls])
+                del ballast
         first, second = plain[0], plain[1]
         assert first is not None and second is not None
         stable = []
